@@ -106,5 +106,10 @@ func specs() map[string]*spec {
 		Rule: "runtime provenance (taint) monitor: crypto/rand.Reader is interposed in the child and every chunk served to a /repo caller is recorded with the caller's frames; sinks are observed outside the client (nonce on the wire, new_nonce after the server's RSA decryption, g_b on the wire, SRP A in the answer); oracle: nonce/new_nonce equal a served window, g_b and A are g^x for a candidate derivation x of a served chunk; plus differential pairs: identical math/rand seeding after client creation must not reproduce nonces or g_b; distinct = distinct exchanges / SRP answers / pairs. Reach is reported as draws per calling function; a path not executed is not judged",
 		Assumptions: []string{"the quantifier 'all paths' exceeds what a run can show: only the executed paths from CreateConnection / GetInputCheckPassword to each sink are judged (they are straight-line in this code base); see DESIGN 6/C19", "refserver decrypts new_nonce with the test RSA key"},
 	})
+	add(&spec{ID: "C14", Level: "exploration", NeedsTlgen: true,
+		WLs: []wlSpec{{Name: "c14", Shards: 4, TimeoutS: 1800}},
+		Rule: "PRNG schemas inside the documented subset (enums, single/multi-constructor types, constructor/type name clashes, namespaces, every primitive, flags:# leading or not, bits {0,1,2,3,7,15,30,31}, shared bits, true flags, vectors of primitives and types, functions returning objects/Bool/vectors, @type/@enum/@constructor/@method/@param annotations; a quarter also with plain comments) and every schema under schemes/: (a) tlparser.ParseSchema compared with an independent parse; (b) the real tlgen binary (built from the working tree) run 3 (quick) / 10 (thorough) times per schema, output files byte-identical; (c) outputs compiled together with a stub Client and a reflection dumper and audited like C13 (id, field kinds, flag bits, FlagIndex, nothing extra registered, one method per function); distinct = distinct schema texts + distinct (schema, reflected summary)",
+		Assumptions: []string{"ref/tlschema as the independent reading of generated schema text", "go toolchain for compiling the generated package", "the documented subset is taken from the parser's own fixtures and comments (DESIGN 6/C14)"},
+	})
 	return m
 }
